@@ -285,6 +285,158 @@ Section Lin.
     - apply IH. exact Hl.
   Qed.
 
+  (* ---------------- progress ---------------- *)
+  Notation need := (need O V).
+
+  (* events carry the id of the scheduled thread *)
+  Lemma step_event_tag : forall st s st1 ev e, step st s = (st1, ev) -> In e ev -> fst e = s.
+  Proof.
+    intros st s st1 ev e Hstep Hin. unfold LogConc.step in Hstep.
+    destruct (nth_error (m_threads st) s) as [th|]; [|inversion Hstep; subst; destruct Hin].
+    destruct (step_thread (m_cell st) (m_next st) th) as [[[c n] th'] [o|]];
+      inversion Hstep; subst; cbn in Hin; [|destruct Hin].
+    destruct Hin as [<- | []]. reflexivity.
+  Qed.
+
+  (* a step of another thread does not touch thread t *)
+  Lemma step_other_thread : forall st s st1 ev t, s <> t -> step st s = (st1, ev) ->
+    nth_error (m_threads st1) t = nth_error (m_threads st) t.
+  Proof.
+    intros st s st1 ev t Hne Hstep. unfold LogConc.step in Hstep.
+    destruct (nth_error (m_threads st) s) as [th|]; [|inversion Hstep; subst; reflexivity].
+    destruct (step_thread (m_cell st) (m_next st) th) as [[[c n] th'] e].
+    inversion Hstep; subst. cbn. apply nth_error_set_nth_other. exact Hne.
+  Qed.
+
+  (* a step without a linearisation event leaves the cell as it is *)
+  Lemma step_silent_cell : forall st s st1, step st s = (st1, []) -> m_cell st1 = m_cell st.
+  Proof.
+    intros st s st1 Hstep. unfold LogConc.step in Hstep.
+    destruct (nth_error (m_threads st) s) as [th|]; [|inversion Hstep; subst; reflexivity].
+    unfold LogConc.step_thread in Hstep.
+    destruct (t_ops th) as [|o rest]; [inversion Hstep; subst; reflexivity|].
+    destruct (nth_error (prog o) (t_pc th)) as [[|f|f k]|].
+    - inversion Hstep; subst. reflexivity.
+    - destruct (new_ptr O V F pure ident (m_next st) f o (t_reg th)) as [c' n'].
+      inversion Hstep.
+    - destruct (fst (m_cell st) =? fst (t_reg th)).
+      + destruct (new_ptr O V F pure ident (m_next st) f o (t_reg th)) as [c' n'].
+        inversion Hstep.
+      + inversion Hstep; subst. reflexivity.
+    - inversion Hstep; subst. reflexivity.
+  Qed.
+
+  (* the three kinds of own steps of a thread with a pending operation *)
+  Lemma step_load : forall st t th o rest,
+    nth_error (m_threads st) t = Some th -> t_ops th = o :: rest -> t_pc th = 0 ->
+    step st t = ({| m_cell := m_cell st; m_next := m_next st;
+                    m_threads := set_nth t {| t_ops := o :: rest; t_pc := 1; t_reg := m_cell st |}
+                                         (m_threads st) |}, []).
+  Proof.
+    intros st t th o rest Hth Hops Hpc. unfold LogConc.step, LogConc.step_thread.
+    rewrite Hth, Hops, Hprog, Hpc. cbn [nth_error]. unfold advance. rewrite Hprog. reflexivity.
+  Qed.
+
+  Lemma step_cas_fail : forall st t th o rest,
+    nth_error (m_threads st) t = Some th -> t_ops th = o :: rest -> t_pc th = 1 ->
+    (fst (m_cell st) =? fst (t_reg th)) = false ->
+    step st t = ({| m_cell := m_cell st; m_next := m_next st;
+                    m_threads := set_nth t {| t_ops := o :: rest; t_pc := 0; t_reg := t_reg th |}
+                                         (m_threads st) |}, []).
+  Proof.
+    intros st t th o rest Hth Hops Hpc Hne. unfold LogConc.step, LogConc.step_thread.
+    rewrite Hth, Hops, Hprog, Hpc. cbn [nth_error]. rewrite Hne. reflexivity.
+  Qed.
+
+  Lemma step_cas_ok : forall st t th o rest,
+    nth_error (m_threads st) t = Some th -> t_ops th = o :: rest -> t_pc th = 1 ->
+    (fst (m_cell st) =? fst (t_reg th)) = true ->
+    exists st1, step st t = (st1, [(t, o)]) /\ t_ops_of t (m_threads st1) = rest.
+  Proof.
+    intros st t th o rest Hth Hops Hpc Heq. unfold LogConc.step, LogConc.step_thread.
+    rewrite Hth, Hops, Hprog, Hpc. cbn [nth_error]. rewrite Heq.
+    unfold advance. rewrite Hprog. cbn [length Nat.leb].
+    destruct (new_ptr O V F pure ident (m_next st) (fn_of o) o (t_reg th)) as [c' n'].
+    eexists. split; [reflexivity|]. cbn. unfold t_ops_of.
+    rewrite (nth_error_set_nth_same _ _ _ _ Hth). reflexivity.
+  Qed.
+
+  (* MAIN PROGRESS LEMMA.  In a reachable state let thread t have the pending operation o and
+     let the schedule give t at least [need] steps (2 from the start of the operation, 1 with
+     a current loaded pointer, 3 with a stale one; always <= 3).  Then within that schedule
+     either o is linearised, or an operation of ANOTHER thread is: a thread can only be held
+     up by somebody else's success. *)
+  Lemma progress_need : forall sched v0 all st tr0 t th o rest st' tr',
+    Inv v0 all st tr0 ->
+    nth_error (m_threads st) t = Some th -> t_ops th = o :: rest ->
+    need (m_cell st) th <= occ t sched ->
+    run st sched = (st', tr') ->
+    In (t, o) tr' \/ exists t' o', t' <> t /\ In (t', o') tr'.
+  Proof.
+    induction sched as [|s sched IH]; intros v0 all st tr0 t th o rest st' tr' HI Hth Hops Hneed Hrun.
+    { exfalso. unfold LogConc.need in Hneed. cbn in Hneed.
+      destruct (t_pc th =? 0); [lia|]. destruct (fst (m_cell st) =? fst (t_reg th)); lia. }
+    cbn [LogConc.run] in Hrun.
+    destruct (step st s) as [st1 ev] eqn:Hs. destruct (run st1 sched) as [st2 tr2] eqn:Hr.
+    inversion Hrun; subst st2 tr'. clear Hrun.
+    pose proof (Inv_step _ _ _ _ _ _ _ HI Hs) as HI1.
+    cbn [LogConc.occ] in Hneed.
+    destruct (Nat.eq_dec s t) as [-> | Hne].
+    - (* an own step *)
+      rewrite Nat.eqb_refl in Hneed.
+      destruct HI as (_ & _ & _ & Hok). pose proof (nth_error_Forall _ _ _ _ Hok Hth) as Hthok.
+      unfold LogConc.need in Hneed.
+      destruct Hthok as [Hpc | (Hpc & _ & _)]; rewrite Hpc in Hneed; cbn [Nat.eqb] in Hneed.
+      + (* Load: one CAS away afterwards *)
+        rewrite (step_load st t th o rest Hth Hops Hpc) in Hs. inversion Hs; subst st1 ev. clear Hs.
+        cbn [app].
+        eapply (IH _ _ _ _ t {| t_ops := o :: rest; t_pc := 1; t_reg := m_cell st |} o rest _ _ HI1);
+          [| reflexivity | | exact Hr].
+        * cbn [m_threads]. apply (nth_error_set_nth_same _ _ _ _ Hth).
+        * unfold LogConc.need. cbn. rewrite Nat.eqb_refl. lia.
+      + destruct (fst (m_cell st) =? fst (t_reg th)) eqn:Hcmp.
+        * (* CAS succeeds *)
+          destruct (step_cas_ok st t th o rest Hth Hops Hpc Hcmp) as (st1' & Hs' & _).
+          rewrite Hs' in Hs. inversion Hs; subst. left. left. reflexivity.
+        * (* CAS fails: Load and CAS to go *)
+          rewrite (step_cas_fail st t th o rest Hth Hops Hpc Hcmp) in Hs.
+          inversion Hs; subst st1 ev. clear Hs.
+          cbn [app].
+          eapply (IH _ _ _ _ t {| t_ops := o :: rest; t_pc := 0; t_reg := t_reg th |} o rest _ _ HI1);
+            [| reflexivity | | exact Hr].
+          -- cbn [m_threads]. apply (nth_error_set_nth_same _ _ _ _ Hth).
+          -- unfold LogConc.need. cbn. lia.
+    - (* a step of another thread *)
+      apply Nat.eqb_neq in Hne as Hneb. rewrite Hneb in Hneed. cbn [Nat.add] in Hneed.
+      destruct ev as [|e ev].
+      + (* silent: nothing changed for t *)
+        cbn [app]. eapply (IH _ _ _ _ t th o rest _ _ HI1); [| exact Hops | | exact Hr].
+        * rewrite (step_other_thread _ _ _ _ t Hne Hs). exact Hth.
+        * rewrite (step_silent_cell _ _ _ Hs). exact Hneed.
+      + (* the other thread linearised an operation *)
+        right. destruct e as [t' o']. exists t', o'. split; [|left; reflexivity].
+        pose proof (step_event_tag _ _ _ _ (t', o') Hs (or_introl eq_refl)) as E. cbn in E. congruence.
+  Qed.
+
+  Lemma need_le_3 : forall cell th, need cell th <= 3.
+  Proof.
+    intros cell th. unfold LogConc.need. destruct (t_pc th =? 0); [lia|].
+    destruct (fst cell =? fst (t_reg th)); lia.
+  Qed.
+
+  Lemma occ_repeat : forall t k, occ t (repeat t k) = k.
+  Proof. induction k as [|k IH]; cbn; [reflexivity|]. rewrite Nat.eqb_refl, IH. reflexivity. Qed.
+
+  Lemma run_tags : forall sched st st' tr e, run st sched = (st', tr) -> In e tr -> In (fst e) sched.
+  Proof.
+    induction sched as [|s sched IH]; intros st st' tr e Hrun Hin; cbn in Hrun.
+    - inversion Hrun; subst. destruct Hin.
+    - destruct (step st s) as [st1 ev] eqn:Hs. destruct (run st1 sched) as [st2 tr2] eqn:Hr.
+      inversion Hrun; subst. apply in_app_or in Hin as [Hin | Hin].
+      + left. symmetry. eapply step_event_tag; eassumption.
+      + right. eapply IH; eassumption.
+  Qed.
+
   (* at every moment the cell is the sequential application of the linearised operations,
      nothing is linearised that was not requested, nor twice, and every thread's operations
      are linearised in its program order *)
@@ -312,5 +464,68 @@ Section Lin.
     destruct (run_cell v0 progs sched st tr Hrun) as (H1 & H2 & H3).
     rewrite (all_returned_pending st Hret), app_nil_r in H2. repeat split; try assumption.
     intros t. specialize (H3 t). rewrite (all_returned_t_ops st t Hret), app_nil_r in H3. exact H3.
+  Qed.
+
+  (* reachable = the state after some schedule from the initial state *)
+  (* lock-freedom: whenever a thread with a pending operation gets three steps, some
+     operation (its own or, if not, another thread's) is linearised in that stretch *)
+  Theorem progress_lockfree : forall v0 progs sched0 st tr0 t o rest sched st' tr',
+    run (init_state O V v0 progs) sched0 = (st, tr0) ->
+    t_ops_of t (m_threads st) = o :: rest -> 3 <= occ t sched ->
+    run st sched = (st', tr') ->
+    In (t, o) tr' \/ exists t' o', t' <> t /\ In (t', o') tr'.
+  Proof.
+    intros v0 progs sched0 st tr0 t o rest sched st' tr' Hreach Hops Hocc Hrun.
+    destruct (Inv_Ord_run sched0 v0 (concat progs) progs _ [] st tr0 (Inv_init v0 progs)
+                (Ord_init v0 progs) Hreach) as [HI _].
+    unfold t_ops_of in Hops. destruct (nth_error (m_threads st) t) as [th|] eqn:Hth; [|discriminate].
+    eapply progress_need; [exact HI | exact Hth | exact Hops | | exact Hrun].
+    pose proof (need_le_3 (m_cell st) th). lia.
+  Qed.
+
+  (* obstruction-freedom: if no other thread's operation is linearised in a stretch that gives
+     t three steps, t's pending operation is *)
+  Theorem progress_obstruction_free : forall v0 progs sched0 st tr0 t o rest sched st' tr',
+    run (init_state O V v0 progs) sched0 = (st, tr0) ->
+    t_ops_of t (m_threads st) = o :: rest -> 3 <= occ t sched ->
+    run st sched = (st', tr') ->
+    (forall e, In e tr' -> fst e = t) ->
+    In (t, o) tr'.
+  Proof.
+    intros v0 progs sched0 st tr0 t o rest sched st' tr' Hreach Hops Hocc Hrun Honly.
+    destruct (progress_lockfree _ _ _ _ _ _ _ _ _ _ _ Hreach Hops Hocc Hrun) as [H | (t' & o' & Hne & Hin)];
+      [exact H|]. exfalso. apply Hne. apply (Honly _ Hin).
+  Qed.
+
+  (* in particular: running alone, a call completes within three of its own micro-steps *)
+  Theorem progress_solo : forall v0 progs sched0 st tr0 t o rest st' tr',
+    run (init_state O V v0 progs) sched0 = (st, tr0) ->
+    t_ops_of t (m_threads st) = o :: rest ->
+    run st (repeat t 3) = (st', tr') -> In (t, o) tr'.
+  Proof.
+    intros v0 progs sched0 st tr0 t o rest st' tr' Hreach Hops Hrun.
+    eapply progress_obstruction_free; [exact Hreach | exact Hops | | exact Hrun |].
+    - rewrite occ_repeat. lia.
+    - intros e He. pose proof (run_tags _ _ _ _ e Hrun He) as Hin.
+      apply repeat_spec in Hin. exact Hin.
+  Qed.
+
+  (* a failed CompareAndSwap is always somebody else's success: a thread that starts an
+     operation (Load) and later attempts its CompareAndSwap — whatever the others do in
+     between — either succeeds or another thread's operation was linearised since the Load *)
+  Theorem progress_failed_cas : forall v0 progs sched0 st tr0 t th o rest mid st' tr',
+    run (init_state O V v0 progs) sched0 = (st, tr0) ->
+    nth_error (m_threads st) t = Some th -> t_ops th = o :: rest -> t_pc th = 0 ->
+    run st (t :: mid ++ [t]) = (st', tr') ->
+    In (t, o) tr' \/ exists t' o', t' <> t /\ In (t', o') tr'.
+  Proof.
+    intros v0 progs sched0 st tr0 t th o rest mid st' tr' Hreach Hth Hops Hpc Hrun.
+    destruct (Inv_Ord_run sched0 v0 (concat progs) progs _ [] st tr0 (Inv_init v0 progs)
+                (Ord_init v0 progs) Hreach) as [HI _].
+    eapply progress_need; [exact HI | exact Hth | exact Hops | | exact Hrun].
+    unfold LogConc.need. rewrite Hpc. cbn [Nat.eqb LogConc.occ]. rewrite Nat.eqb_refl.
+    assert (G : forall l, 1 <= occ t (l ++ [t])).
+    { induction l as [|x l IHl]; cbn; [rewrite Nat.eqb_refl; lia | lia]. }
+    specialize (G mid). lia.
   Qed.
 End Lin.
